@@ -5,9 +5,10 @@ import os
 
 import common
 import replica_gen as RG
+import runloop
 from common import Rng
 
-PROP_FILES = ["theories/Properties/C05.v"]
+PROP_FILES = ["theories/Properties/C05.v", "theories/Properties/C05Spec.v"]
 
 
 def cert_views(snap):
@@ -96,6 +97,51 @@ def run_replica_cases(rep, prop, opts, ncases, rng, broken, extra_pred=None):
             "steps": steps, "dist": len(dist), "results": results, "sample_ids": sample_ids}
 
 
+SPEC_CODES = {
+    -2: "restart", -1: "replica dead",
+    0: "both refuse", 1: "both accept, post-state and messages agree",
+    10: "spec accepts / impl refuses: duplicate signer by per-validator latest view",
+    11: "spec accepts / impl refuses: new-view for the current view not from its leader",
+    12: "spec accepts / impl refuses: proposal for a pruned block number",
+    13: "spec accepts / impl refuses: payload over max_payload_size",
+    14: "spec accepts / impl refuses: previous block not yet stored",
+    15: "spec accepts / impl refuses: block below the first block of the epoch",
+    16: "spec accepts / impl refuses: block store gap (handler waits)",
+    17: "spec accepts / impl panics: u64 overflow of .next()",
+    18: "spec accepts / impl refuses: internal error",
+    19: "spec accepts / impl refuses: implied block differs (sub-quorum per block vs per vote)",
+    20: "impl accepts / spec refuses: implied block is not the next uncommitted block",
+    21: "impl accepts / spec refuses: implied block differs (sub-quorum per block vs per vote)",
+    99: "UNEXPLAINED (contradicts C05_refines_spec)",
+}
+
+
+def run_spec_cases(rep, cases, pred_fail):
+    """Sanity check of the refinement theorem (a test, not a proof): evaluates in Coq, along the
+    model's run of every replica scenario, Proofs.ReplicaSpec.classify = rstep next to
+    Model.Spec.spec_step from the abstracted state, and returns the histogram of
+    (implementation accepts / specification accepts / refinement reason).  Only an UNEXPLAINED
+    step (code 99: an accepted step on which the two disagree, or a disagreement outside the
+    documented refinements) is reported, as a predicate failure."""
+    coq_cases = [(i, RG.c_case(c), "(OL [])") for i, c in enumerate(cases)]
+    mm, _ = common.run_model_cases("C05S", "From EC Require Import Model.Msgs Model.Replica Model.ReplicaRun Proofs.ReplicaSpec.",
+                                   "Proofs.ReplicaSpec.classify_case", coq_cases, shard_size=4, timeout=2400)
+    hist, steps = {}, 0
+    for i, c in enumerate(cases):
+        codes = common.norm_obs(mm[i]) if i in mm else []
+        for k, code in enumerate(codes):
+            steps += 1
+            name = SPEC_CODES.get(code, str(code))
+            hist[name] = hist.get(name, 0) + 1
+            if code == 99:
+                pred_fail.append({"case": RG.strip(c), "case_index": i, "step": k + 1,
+                                  "failed": f"specification refinement: step {k + 1} is neither in agreement with Model/Spec.v "
+                                            "nor covered by a documented refinement"})
+    return {"spec_refinement_steps": steps, "spec_refinement_histogram": hist,
+            "spec_refinement_note": "test of Properties/C05Spec.v (C05_refines_spec) on the scenarios of the replica correspondence: "
+                                    "Model/Replica.rstep vs Model/Spec.spec_step from abs(state), classified in Coq by vm_compute"}
+
+
 def first_diff(model_obs, impl_obs):
     """index of the first differing step between the two observation lists"""
     m = common.norm_obs(model_obs) if not isinstance(model_obs, list) else model_obs
@@ -105,7 +151,7 @@ def first_diff(model_obs, impl_obs):
     return None
 
 
-def report(rep, prop, po, R, broken, what):
+def report(rep, prop, po, R, broken, what, extra_first=None):
     mm, cases, outs, pred_fail = R["mm"], R["cases"], R["outs"], R["pred_fail"]
     if pred_fail:
         rep.violation(f"{prop} violated on the implementation: " + pred_fail[0]["failed"],
@@ -117,6 +163,7 @@ def report(rep, prop, po, R, broken, what):
             fd = first_diff(mm[i], outs[i]["obs"])
             first = {"case": RG.strip(cases[i]), "first_differing_step": fd[0] if fd else None,
                      "model_step_obs": fd[1] if fd else None, "impl_step_obs": fd[2] if fd else None}
+        first = first or extra_first
         rep.violation(f"{prop} no longer shown to hold: " + "; ".join(broken)[:500],
                       {"broken": broken, "first_disagreement": first}, found_input=False)
     rep.cov.update({
@@ -142,9 +189,25 @@ def run(rep):
     if not po["ok"]:
         broken.append("Coq obligations of Properties/C05.v: " + (po["log_tail"] or str(po["hygiene_problems"] or po["bad_axioms"])))
     R = run_replica_cases(rep, "C05", {"rounds": 6 if tier == "quick" else 10, "crash": False, "extreme": False},
-                          60 if tier == "quick" else 1200, rng, broken)
+                          int(os.environ.get("VERIF_C05_N") or (60 if tier == "quick" else 1200)), rng, broken)
+    spec_ev = run_spec_cases(rep, R["cases"], R["pred_fail"])
+    # black-box tie of the real run loop (Config::run fed through create_input_channel) to the model
+    RL = runloop.run_runloop_cases(rep, "C05", 15 if tier == "quick" else 300, rng, broken,
+                                   rounds=6 if tier == "quick" else 10)
+    rl_ev = runloop.evidence(RL)
+    for pf in RL["pred_fail"]:
+        R["pred_fail"].append(dict(pf, harness="runloop"))
+    rl_first = rl_ev.get("runloop_first_disagreement")
+    if rl_first:
+        rl_first = dict(rl_first, harness="runloop")
     report(rep, "C05", po, R, broken,
-           "scenarios: one replica among 1-7 validators (unit/small/medium weights), a puppet network walking 6-10 views through commit rounds and timeout rounds with injected wrong-leader / bad-signature / payload-mismatch / oversized / invalid-payload / equivocating proposals, non-member / other-block / wrong-epoch / future / stale / duplicate votes, corrupted nested certificates, new-view catch-up, timers, block sync; per step the outcome class, ordered effects and full snapshot are compared; distinct = distinct step observations")
+           "scenarios: one replica among 1-7 validators (unit/small/medium weights), a puppet network walking 6-10 views through commit rounds and timeout rounds with injected wrong-leader / bad-signature / payload-mismatch / oversized / invalid-payload / equivocating proposals, non-member / other-block / wrong-epoch / future / stale / duplicate votes, corrupted nested certificates, new-view catch-up, timers, block sync; per step the outcome class, ordered effects and full snapshot are compared; distinct = distinct step observations",
+           extra_first=rl_first)
+    rep.cov.update(rl_ev)
+    rep.cov.update(spec_ev)
+    rep.cov["obligations"] += 1
+    rep.cov["discharged"] += 0 if RL["mm"] else 1
+    rep.cov["evaluations"] += RL["steps"]
     rep.assumptions += ["H-SIG, H-HASH", "crashes excluded here (C03)"]
 
 
@@ -154,8 +217,9 @@ def replay(path):
     if not fi:
         print("no concrete input:", d.get("broken"))
         return 1
-    common.cargo_build(["replica"], "dev")
-    o = common.run_impl("replica", [fi["case"]], "dev")[0]
+    hbin = fi.get("harness", "replica")
+    common.cargo_build([hbin], "dev")
+    o = common.run_impl(hbin, [fi["case"]], "dev")[0]
     for i, ob in enumerate(o["obs"]):
         print(i, json.dumps(ob)[:400])
     return 0
